@@ -156,10 +156,24 @@ type xSnap struct {
 	alive map[string]map[string]bool // root store -> ids
 	sys   map[string]map[string]bool // root store -> ids whose stored isSystem flag is set
 	child map[string]map[string]bool // child store -> ids with child data
+	// string values held now (C15 DeleteWhere filters are built from values that exist): root store -> id -> field -> value,
+	// child store -> id -> own field -> value
+	fvals map[string]map[string]map[string]string
+	cvals map[string]map[string]map[string]string
 }
 
 func (h *harnessDb) snapshot() *xSnap {
-	s := &xSnap{alive: map[string]map[string]bool{}, sys: map[string]map[string]bool{}, child: map[string]map[string]bool{}}
+	s := &xSnap{alive: map[string]map[string]bool{}, sys: map[string]map[string]bool{}, child: map[string]map[string]bool{},
+		fvals: map[string]map[string]map[string]string{}, cvals: map[string]map[string]map[string]string{}}
+	put := func(m map[string]map[string]map[string]string, st, id, f, v string) {
+		if m[st] == nil {
+			m[st] = map[string]map[string]string{}
+		}
+		if m[st][id] == nil {
+			m[st][id] = map[string]string{}
+		}
+		m[st][id][f] = v
+	}
 	for _, d := range h.w.Stores {
 		if d.Parent == "" {
 			s.alive[d.Name] = map[string]bool{}
@@ -180,6 +194,13 @@ func (h *harnessDb) snapshot() *xSnap {
 				if m := s.sys[p[1]]; m != nil {
 					m[string(unhx(p[2]))] = true
 				}
+			}
+			if len(p) == 5 && strings.HasPrefix(p[4], "s") {
+				put(s.fvals, p[1], string(unhx(p[2])), p[3], string(unhx(p[4][1:])))
+			}
+		case "CF":
+			if len(p) == 6 && strings.HasPrefix(p[5], "s") {
+				put(s.cvals, p[3], string(unhx(p[2])), p[4], string(unhx(p[5][1:])))
 			}
 		case "C":
 			if m := s.child[p[3]]; m != nil {
@@ -399,6 +420,12 @@ func (g *xGen) genOpX(txSys bool) hOp {
 			return g.pickFrom(alive)
 		}
 	}
+	// C15: DeleteWhere through the parent, plain child and extended child stores (store_c15w3.go; draws nothing for C16)
+	if g.prof == "c15" && len(alive) > 0 && g.r.chance(c15PDeleteWhere) {
+		if op, ok := g.c15GenDW(st, alive); ok {
+			return op
+		}
+	}
 	k := g.r.intn(100)
 	if st.Parent != "" && len(withChild) == 0 && k >= 36 && g.r.chance(70) {
 		k = 0
@@ -485,6 +512,9 @@ func (g *xGen) genTxX() hTx {
 	n := 1 + g.r.intn(3)
 	for i := 0; i < n; i++ {
 		t.Ops = append(t.Ops, g.genOpX(t.Sys))
+	}
+	if g.prof == "c15" {
+		g.c15IsolateDW(&t) // mostly: a DeleteWhere is the whole body of its transaction (store_c15w3.go)
 	}
 	if g.r.chance(3) {
 		pos := g.r.intn(len(t.Ops) + 1)
@@ -618,6 +648,9 @@ func runStoreX(o *opts) error {
 	}
 	r := newRng(o.seed)
 	wirings := []string{"idx", "casc"}
+	if profile == "c15" {
+		wirings = c15Wirings // + parents whose child store declares nothing but fields (store_c15w3.go)
+	}
 	if profile == "c16" {
 		wirings = c16Wirings // + constraint on a child store only / on both levels (store_c16w2.go)
 	}
